@@ -1,0 +1,133 @@
+// MIT License
+//
+// Copyright (c) 2022-2026 GoAkt Team
+//
+// Permission is hereby granted, free of charge, to any person obtaining a copy
+// of this software and associated documentation files (the "Software"), to deal
+// in the Software without restriction, including without limitation the rights
+// to use, copy, modify, merge, publish, distribute, sublicense, and/or sell
+// copies of the Software, and to permit persons to whom the Software is
+// furnished to do so, subject to the following conditions:
+//
+// The above copyright notice and this permission notice shall be included in all
+// copies or substantial portions of the Software.
+//
+// THE SOFTWARE IS PROVIDED "AS IS", WITHOUT WARRANTY OF ANY KIND, EXPRESS OR
+// IMPLIED, INCLUDING BUT NOT LIMITED TO THE WARRANTIES OF MERCHANTABILITY,
+// FITNESS FOR A PARTICULAR PURPOSE AND NONINFRINGEMENT. IN NO EVENT SHALL THE
+// AUTHORS OR COPYRIGHT HOLDERS BE LIABLE FOR ANY CLAIM, DAMAGES OR OTHER
+// LIABILITY, WHETHER IN AN ACTION OF CONTRACT, TORT OR OTHERWISE, ARISING FROM,
+// OUT OF OR IN CONNECTION WITH THE SOFTWARE OR THE USE OR OTHER DEALINGS IN THE
+// SOFTWARE.
+
+//go:build verif
+
+package actor
+
+import (
+	"sort"
+
+	"github.com/tochemey/goakt/v4/internal/internalpb"
+	"github.com/tochemey/goakt/v4/passivation"
+	"github.com/tochemey/goakt/v4/supervisor"
+)
+
+// VerifSpawnObservation is a read-only projection of the spawn-time
+// configuration a local PID actually runs with. Verification harness only.
+type VerifSpawnObservation struct {
+	// supervisor
+	HasSupervisor bool
+	Strategy      string
+	MaxRetries    uint32
+	RetryTimeout  int64 // nanoseconds
+	InitialDelay  int64
+	MaxDelay      int64
+	ResetAfter    int64
+	Rules         []supervisor.DirectiveRule // sorted by error type
+	// passivation
+	Passivation      string // strategy name, "" when nil
+	PassivateAfter   int64
+	MaxMessages      int
+	MsgCountFastPath bool
+	// reentrancy
+	HasReentrancy bool
+	Mode          int
+	MaxInFlight   int64
+	// misc
+	Stash          bool
+	Role           string
+	HasRole        bool
+	Dependencies   map[string][]byte
+	HasInitTimeout bool
+	InitTimeout    int64
+	EffInitTimeout int64
+	Relocatable    bool
+}
+
+// VerifObserveSpawn projects the spawn configuration of a local PID.
+// Verification harness only.
+func VerifObserveSpawn(pid *PID) (VerifSpawnObservation, error) {
+	var o VerifSpawnObservation
+	if sup := pid.supervisor; sup != nil {
+		o.HasSupervisor = true
+		o.Strategy = sup.Strategy().String()
+		o.MaxRetries = sup.MaxRetries()
+		o.RetryTimeout = int64(sup.Timeout())
+		o.InitialDelay = int64(sup.InitialDelay())
+		o.MaxDelay = int64(sup.MaxDelay())
+		o.ResetAfter = int64(sup.BackoffResetAfter())
+		o.Rules = sup.Rules()
+		sort.Slice(o.Rules, func(i, j int) bool { return o.Rules[i].ErrorType < o.Rules[j].ErrorType })
+	}
+
+	switch s := pid.PassivationStrategy().(type) {
+	case nil:
+	case *passivation.TimeBasedStrategy:
+		o.Passivation, o.PassivateAfter = s.Name(), int64(s.Timeout())
+	case *passivation.MessagesCountBasedStrategy:
+		o.Passivation, o.MaxMessages = s.Name(), s.MaxMessages()
+	default:
+		o.Passivation = s.Name()
+	}
+	o.MsgCountFastPath = pid.msgCountPassivation.Load()
+
+	if state := pid.reentrancy.Load(); state != nil {
+		o.HasReentrancy = true
+		o.Mode = int(state.getMode())
+		o.MaxInFlight = state.maxInFlight.Load()
+	}
+
+	o.Stash = pid.stashState != nil && pid.stashState.box != nil
+	if role := pid.Role(); role != nil {
+		o.HasRole, o.Role = true, *role
+	}
+
+	o.Dependencies = map[string][]byte{}
+	for _, dependency := range pid.Dependencies() {
+		bytea, err := dependency.MarshalBinary()
+		if err != nil {
+			return o, err
+		}
+		o.Dependencies[dependency.ID()] = bytea
+	}
+
+	if override := pid.initTimeout.Load(); override != nil {
+		o.HasInitTimeout, o.InitTimeout = true, int64(*override)
+	}
+	o.EffInitTimeout = int64(pid.effectiveInitTimeout())
+	o.Relocatable = pid.IsRelocatable()
+	return o, nil
+}
+
+// VerifToSerialize exposes PID.toSerialize: the record a node publishes for an
+// actor and from which a relocated actor is recreated. Verification harness only.
+func VerifToSerialize(pid *PID) (*internalpb.Actor, error) {
+	return pid.toSerialize()
+}
+
+// VerifWireSpawnOptions exposes actorSystem.wireSpawnOptions: the spawn options
+// recreateActorFromWire rebuilds from a serialized actor record.
+// Verification harness only.
+func VerifWireSpawnOptions(system ActorSystem, props *internalpb.Actor) ([]SpawnOption, error) {
+	return system.(*actorSystem).wireSpawnOptions(props)
+}
